@@ -11,12 +11,17 @@ printer and of strconv.Quote (Model/Print.lean, Model/Quote.lean) and the spec s
   json quote <bytes>   model: strconv.Quote
   json qjs <bytes>  model: is Quote's output a JSON string literal (Rfc8259)   spec: the characterisation
   json qrune <int>  model: strconv.QuoteRune
+  json hist <nv> <v>… <step>…   a history of encode/decode steps (harness/ch_json_hist.go):
+                    model: answers of JsonHistory.modelRun (append-only store of encode results)
+                    spec:  answers of JsonHistory.specRun (an encoded result is the value it was made from)
+                    values outside the round-trip domain: `out-of-domain` on both sides
 
 Value syntax (prefix): n | t | f | i <int> | u <nat> | d <hexbits> <ftext> <gtext> | e <hexbits> <etext> <gtext>
  | c <int> | s <bytes> | b <bytes> | y <bytes> | l <n> v… | a <n> v… | h <typename> <n> (k v)…
 -/
 import ZygoVerif.Model.Json
 import ZygoVerif.Model.LegacyJson
+import ZygoVerif.Model.JsonHistory
 import ZygoVerif.Spec.JsonData
 import ZygoVerif.Driver.Proto
 namespace ZygoVerif.Driver.Json
@@ -163,6 +168,70 @@ def quoteJsonOk : Nat → Bytes → Bool
 
 def showB (b : Bool) : String := if b then "t" else "f"
 
+/-! history ops -/
+
+open ZygoVerif.JsonHistory in
+/-- step tokens of a `hist` op -/
+def parseSteps : List String → Option (List Step)
+  | [] => some []
+  | "ej" :: ip :: i :: r => do some (.enc .json (← ip.toNat?) (← i.toNat?) :: (← parseSteps r))
+  | "em" :: ip :: i :: r => do some (.enc .msgpack (← ip.toNat?) (← i.toNat?) :: (← parseSteps r))
+  | "gj" :: i :: r => do some (.enc .gojson 0 (← i.toNat?) :: (← parseSteps r))
+  | "gm" :: i :: r => do some (.enc .msgpack 0 (← i.toNat?) :: (← parseSteps r))
+  | "d" :: ip :: s :: r => do some (.dec (← ip.toNat?) (← s.toNat?) :: (← parseSteps r))
+  | "st" :: s :: r => do some (.stable (← s.toNat?) :: (← parseSteps r))
+  | "zb" :: s :: r => do some (.clobber (← s.toNat?) :: (← parseSteps r))
+  | "mu" :: x :: r => do some (.setFirst (← x.toNat?) :: (← parseSteps r))
+  | "md" :: x :: r => do some (.setInner (← x.toNat?) :: (← parseSteps r))
+  | "ad" :: x :: r => do some (.addKey (← x.toNat?) :: (← parseSteps r))
+  | "sh" :: x :: r => do some (.show (← x.toNat?) :: (← parseSteps r))
+  | "mv" :: ip :: i :: r => do some (.setVal (← ip.toNat?) (← i.toNat?) :: (← parseSteps r))
+  | _ => none
+
+def parseVals : Nat → List String → Option (List V × List String)
+  | 0, r => some ([], r)
+  | n + 1, r => do
+    let (v, r1) ← parseV 64 r
+    let (vs, r2) ← parseVals n r1
+    some (v :: vs, r2)
+
+def showOut : JsonHistory.Out → String
+  | .ok => "ok" | .err => "err" | .dead => "dead" | .same => "same" | .changed => "changed"
+  | .na => "na" | .sameAsFirst => "same-as-first" | .differs => "differs"
+  | .val v => canonV v
+
+def showOuts : Option (List JsonHistory.Out) → String
+  | none => "bad-op"
+  | some [] => "bad-op"
+  | some l => " | ".intercalate (l.map showOut)
+
+/-- The msgpack / JSON codec of the driver: the "bytes" of a Go value are its canonical
+text, decoded by looking it up among the Go values of the op (an executable instance of the
+codec law `dec (enc g) = g` on the values that occur; the real bytes never cross the line). -/
+def tableCodec (tbl : List JValue) : Json.MsgpackCodec where
+  enc g := (canonJ g).toList.map Char.toNat
+  dec b := tbl.find? (fun g => (canonJ g).toList.map Char.toNat == b)
+
+def handleHist (toks : List String) : String :=
+  match toks with
+  | nv :: rest =>
+    match nv.toNat?.bind (fun n => parseVals n rest) with
+    | some (vals, stepToks) =>
+      match parseSteps stepToks with
+      | none => "bad-op\t-"
+      | some steps =>
+        if vals.any shapeLawBroken then "float-shape-law-broken\t-" else
+        -- histories are about values of the round-trip domain only
+        if !(vals.all JsonData.inRtDom) then "out-of-domain\tout-of-domain" else
+        let fp := floatParseOf (.arr vals)
+        -- Go values that can occur: of the values and of the values after `mv`
+        let cd := tableCodec ((vals ++ vals.filterMap JsonHistory.setFirstV).filterMap fun v => Rfc8259.parse (Json.sexpToJson v))
+        let m := JsonHistory.modelRun { mp := cd, gj := cd } fp vals steps
+        let s := JsonHistory.specRun vals steps
+        s!"{showOuts m}\t{showOuts s}"
+    | none => "bad-op\t-"
+  | [] => "bad-op\t-"
+
 def handle (toks : List String) : String :=
   match toks with
   | ["quote", x] => match parseCodes? x with
@@ -174,6 +243,7 @@ def handle (toks : List String) : String :=
   | ["qrune", x] => match parseInt? x with
     | some r => s!"{showCodes (Quote.quoteRune r)}\t-"
     | none => "bad-op\t-"
+  | "hist" :: rest => handleHist rest
   | mode :: rest =>
     match parseV 64 rest with
     | some (v, []) =>
